@@ -321,8 +321,14 @@ def run(tier, seed):
             rep.fail(c, "trace:" + meta[t]["kind"], meta[t])
     for t in (1, len(meta) // 2, len(meta)):
         rep.sample(meta[t])
+    # the cluster OBJECT as a state machine (spec/ClusterObj.tla): every interleaving of the public ways of changing a cluster,
+    # each transition executed on a real object; random behaviours replayed on one object; sessions validated by Trace_ClusterObj
+    from harness import clusterobj
+    inits, ccfg = clusterobj.graph(rep, tier, seed, "C18/obj")
+    clusterobj.walks(rep, tier, seed, "C18/obj", ccfg, len(inits))
+    clusterobj.run_sessions(rep, tier, seed, "C18/obj", "C18")
     rep.assumptions = ["cluster members have equal length; configurations have a unique best lag (asserted by the spec as UniqueBestLag / by a 1e-9 margin in traces)",
                        "lattice part: integer-valued signals, dt = 0.5, averaging window of 8 samples: all arithmetic exact",
                        "rotation: tolerance 1e-12 relative to the component peaks (libm vs StrictMath cos/sin)"]
-    return rep.finish(checker_cmd="tlc MC_Cluster / Trace_Cluster (harness/drivers/c18.py)",
+    return rep.finish(checker_cmd="tlc MC_Cluster / Trace_Cluster / MC_ClusterObj / Trace_ClusterObj (harness/drivers/c18.py, harness/clusterobj.py)",
                       trusted_base=["TLC 1.8", "FP.class", "TableIO.class", "harness/common.py enc"])
